@@ -6,8 +6,11 @@ package main
 // RDF/XML mapping, whose triples are what the document denotes.
 
 import (
+	"bytes"
 	"encoding/hex"
+	"encoding/xml"
 	"fmt"
+	"io"
 	"sort"
 	"strings"
 
@@ -401,5 +404,80 @@ func c09RDFXML(r *hx.Rand, n int, out *hx.Out, _ []string) {
 		}
 		out.Emit(hx.Case{Kind: "K/C09/rdfxml/iso", Line: "rdfxml\t" + hx.X(base) + "\t" + tokens, Impl: impl, Class: cls, NonTri: len(res.quads) >= 2, Oracle: oracle, Spec: true,
 			Desc: fmt.Sprintf("base=%q productions=%v document: %q", base, fs, doc)})
+	}
+}
+
+// c09-seeds: the RDF/XML documents of the W3C suite shipped in the repository, read by the decoder and by the Coq model
+// (from the namespace-resolved tree encoding/xml delivers); documents with rdf:parseType="Literal" are outside the model.
+func init() { families["c09-seeds"] = c09Seeds }
+
+func c09TreeOf(data []byte) (*xn, bool) {
+	dec := xml.NewDecoder(bytes.NewReader(data))
+	var stack []*xn
+	var root *xn
+	for {
+		tok, err := dec.Token()
+		if err == io.EOF {
+			break
+		}
+		if err != nil {
+			return nil, false
+		}
+		switch t := tok.(type) {
+		case xml.StartElement:
+			e := &xn{name: t.Name.Space + t.Name.Local}
+			for _, a := range t.Attr {
+				if a.Name.Space == "xmlns" || (a.Name.Space == "" && a.Name.Local == "xmlns") {
+					continue
+				}
+				e.attrs = append(e.attrs, [2]string{a.Name.Space + a.Name.Local, a.Value})
+			}
+			if len(stack) > 0 {
+				p := stack[len(stack)-1]
+				p.kids = append(p.kids, e)
+			} else {
+				root = e
+			}
+			stack = append(stack, e)
+		case xml.EndElement:
+			stack = stack[:len(stack)-1]
+		case xml.CharData:
+			if len(stack) > 0 {
+				p := stack[len(stack)-1]
+				if n := len(p.kids); n > 0 && p.kids[n-1].isText {
+					p.kids[n-1].text += string(t)
+				} else {
+					p.kids = append(p.kids, &xn{isText: true, text: string(t)})
+				}
+			}
+		}
+	}
+	return root, root != nil
+}
+
+func c09Seeds(r *hx.Rand, n int, out *hx.Out, _ []string) {
+	files := seeds("rdf")
+	for c := 0; c < n && c < len(files); c++ {
+		s := files[c]
+		base := "http://www.w3.org/2013/RDFXMLTests/" + s.path[strings.LastIndexByte(s.path, '/')+1:]
+		if bytes.Contains(s.data, []byte("Literal")) || bytes.Contains(s.data, []byte("<!ENTITY")) {
+			out.Emit(hx.Case{Kind: "K/C09/seeds-skip", Impl: "skip", Class: "outside the model (parseType Literal / DTD entities)", Desc: s.path})
+			continue
+		}
+		root, ok := c09TreeOf(s.data)
+		res := zooRun("rdfxml", s.data, zooOpts{base: base})
+		if !ok || res.verdict != "ok" {
+			out.Emit(hx.Case{Kind: "K/C09/seeds-skip", Impl: res.verdict, Class: "decoder does not accept (error test)", Desc: s.path})
+			continue
+		}
+		nm := hx.NewNamer()
+		var sts []string
+		for _, q := range res.quads {
+			sts = append(sts, c09Term(q.Triple.Subject, nm)+" "+c09Term(q.Triple.Predicate, nm)+" "+c09Term(q.Triple.Object, nm))
+		}
+		var tk strings.Builder
+		root.tokens(&tk)
+		out.Emit(hx.Case{Kind: "K/C09/seeds/iso", Line: "rdfxmlq\t" + hx.X(base) + "\t" + strings.TrimSuffix(tk.String(), ","), Impl: strings.Join(sts, ";"), Class: "W3C suite document", NonTri: len(res.quads) >= 2, Spec: true,
+			Desc: fmt.Sprintf("base=%q file=%s document: %s", base, s.path, string(s.data))})
 	}
 }
